@@ -55,22 +55,30 @@ func dumpPFile(fset *token.FileSet, f *pgo.File) (string, bool) {
 	return fmt.Sprintf(`(pkg "%s") %s (kind %s) (node %s)`, esc(f.Package), dumpImports(f.Imports, false), kind, d.sb.String()), true
 }
 
-func dumpMeta(m *engine.Meta) string {
+// dumpMeta writes the metavariables a change declares, as the parsed patch
+// states them (not the engine's compiled table, which is under test).
+func dumpMeta(m *parse.Meta) string {
+	kinds := map[string]string{}
 	var names []string
 	if m != nil {
-		for n := range m.Vars {
-			names = append(names, n)
+		for _, d := range m.Vars {
+			k := "e"
+			if d.Type != nil && d.Type.Name == "identifier" {
+				k = "i"
+			}
+			for _, n := range d.Names {
+				if _, dup := kinds[n.Name]; !dup {
+					names = append(names, n.Name)
+				}
+				kinds[n.Name] = k
+			}
 		}
 	}
 	sort.Strings(names)
 	var sb strings.Builder
 	sb.WriteString("(meta")
 	for _, n := range names {
-		k := "e"
-		if m.Vars[n] == engine.IdentMetavarType {
-			k = "i"
-		}
-		sb.WriteString(` ("` + esc(n) + `" ` + k + ")")
+		sb.WriteString(` ("` + esc(n) + `" ` + kinds[n] + ")")
 	}
 	sb.WriteString(")")
 	return sb.String()
@@ -142,14 +150,14 @@ func runEngineCase(c Case) (out engineOut) {
 	var sb strings.Builder
 	sb.WriteString("(case " + c.ID + " engine (changes")
 	key := lcKey(fset)
-	for i, pc := range pchanges {
+	for _, pc := range pchanges {
 		minus, ok1 := dumpPFile(fset, pc.Patch.Minus)
 		plus, ok2 := dumpPFile(fset, pc.Patch.Plus)
 		if !ok1 || !ok2 {
 			out.skip = "unknown pgo node"
 			return
 		}
-		sb.WriteString(" (change " + dumpMeta(changes[i].Meta) + " (minus " + minus + ") (plus " + plus + ")" +
+		sb.WriteString(" (change " + dumpMeta(pc.Meta) + " (minus " + minus + ") (plus " + plus + ")" +
 			" (start " + strconv.Itoa(key(pc.Patch.Pos())) + ") (end " + strconv.Itoa(key(pc.Patch.End())) + "))")
 	}
 	fd := &dumper{ids: map[uintptr]int{}, posKey: func(p token.Pos) int { return int(p) }}
